@@ -98,7 +98,7 @@ template <class T> inline std::string units(const T *p, size_t n, size_t maxshow
     if (n > maxshow) { snprintf(tmp, sizeof tmp, " ..(%zu)", n); s += tmp; }
     return s;
 }
-template <class S> inline std::string units(const S &s, size_t maxshow = 48) { return units(s.data(), s.size(), maxshow); }
+template <class S, class = decltype(std::declval<const S &>().data())> inline std::string units(const S &s, size_t maxshow = 48) { return units(s.data(), s.size(), maxshow); }
 inline std::string quoted(const std::string &s, size_t maxshow = 80) {
     std::string o = "\""; char tmp[8];
     for (size_t i = 0; i < s.size() && i < maxshow; i++) { unsigned char ch = s[i];
